@@ -192,3 +192,12 @@ Proof.
   - unfold c01_prog. repeat constructor; intro HH; discriminate HH.
 Qed.
 Print Assumptions C01_authority_example.
+
+(** Tie to the source: the constructor these theorems start from is the one yarl/_url.py
+    defines - encode_url is re-translated from the working tree on every run and builds the
+    model's URL value on every input (statement and trusted base: C07_source_encode_url). *)
+From Yarl Require Import Model.Url Model.GenTypes Generated.UrlGen Proofs.GenUrlProofs.
+Theorem C01_source_encode_url : forall (O : oracles) (B : backend) (s : str),
+  same_outcome (gen_encode_url O B s) (encode_url O B s).
+Proof. exact gen_encode_url_ok. Qed.
+Print Assumptions C01_source_encode_url.
